@@ -301,6 +301,7 @@ func (ex *Exec) syntactic(c *term.T) (val, ok bool) {
 }
 
 func (ex *Exec) check(extra ...*term.T) smt.Result {
+	ex.S.Where = ex.posString(ex.curPos)
 	r := ex.S.Check(extra...)
 	if ex.S.Err != nil {
 		panic(pathEnd{PathInconclusive, "solver: " + ex.S.Err.Error()})
@@ -557,12 +558,18 @@ func (ex *Exec) extractTape() []TapeEntry {
 	return tape
 }
 
-// fillBytes reads array contents for byte entries (needs the lengths pinned).
+// modelTape asks for a model of path ∧ extra and turns it into a tape. Array
+// contents are read only at the indices the path actually constrains (the
+// select nodes defined so far); every other byte is unconstrained and left 0.
 func (ex *Exec) modelTape(extra ...*term.T) ([]TapeEntry, bool) {
 	for _, e := range ex.tape {
 		if e.t != nil {
 			ex.S.Declare(e.t)
 		}
+	}
+	sels := ex.S.LiveSelects()
+	for _, n := range sels {
+		ex.S.Declare(n.A)
 	}
 	r := ex.S.CheckKeep(extra...)
 	if ex.S.Err != nil || r != smt.Sat {
@@ -570,62 +577,43 @@ func (ex *Exec) modelTape(extra ...*term.T) ([]TapeEntry, bool) {
 		return nil, false
 	}
 	tape := ex.extractTape()
+	var q []*term.T
+	for _, n := range sels {
+		q = append(q, n.A, n)
+	}
+	vals := ex.S.Values(q)
 	ex.S.Release()
-	// second phase: pin scalar inputs, read bytes
-	need := false
-	for _, e := range tape {
-		if e.Kind == "bytes" && e.Len > 0 {
-			need = true
-		}
-	}
-	if !need {
-		return tape, true
-	}
-	pins := append([]*term.T(nil), extra...)
-	var sel []*term.T
-	type rng struct{ i, off, n int }
-	var rngs []rng
-	for i, e := range tape {
-		if e.t != nil {
-			var k uint64
-			if e.Kind == "bytes" {
-				k = uint64(e.Len)
-			} else if e.Kind == "int" {
-				var x int64
-				fmt.Sscan(e.V, &x)
-				k = uint64(x)
-			} else {
-				fmt.Sscan(e.V, &k)
-			}
-			pins = append(pins, ex.C.Eq(e.t, ex.C.Const(e.t.W, k)))
-		}
-		if e.Kind == "bytes" && e.Len > 0 {
-			n := e.Len
-			if n > 1<<20 {
-				return nil, false // too large to replay
-			}
-			rngs = append(rngs, rng{i, len(sel), int(n)})
-			for k := int64(0); k < n; k++ {
-				sel = append(sel, ex.C.Select(e.arr, ex.C.Const(64, uint64(k))))
-			}
-		}
-	}
-	for _, t := range sel {
-		ex.S.Declare(t)
-	}
-	r = ex.S.CheckKeep(pins...)
-	if ex.S.Err != nil || r != smt.Sat {
-		ex.S.Release()
+	if ex.S.Err != nil {
 		return nil, false
 	}
-	vals := ex.S.Values(sel)
-	ex.S.Release()
-	for _, rg := range rngs {
-		b := make([]byte, rg.n)
-		for k := 0; k < rg.n; k++ {
-			b[k] = byte(vals[rg.off+k])
+	for i := range tape {
+		e := &tape[i]
+		if e.Kind != "bytes" || e.Len <= 0 {
+			continue
 		}
-		tape[rg.i].B = b
+		if e.Len > 1<<26 {
+			return nil, false // too large to replay
+		}
+		var buf []byte
+		for k, n := range sels {
+			if n.Arr != e.arr {
+				continue
+			}
+			idx, v := vals[2*k], vals[2*k+1]
+			if int64(idx) < 0 || int64(idx) >= e.Len {
+				continue
+			}
+			if buf == nil {
+				buf = make([]byte, e.Len)
+			}
+			buf[idx] = byte(v)
+		}
+		// trailing zeros need not be stored: the native side pads to Len
+		end := len(buf)
+		for end > 0 && buf[end-1] == 0 {
+			end--
+		}
+		e.B = buf[:end]
 	}
 	return tape, true
 }
@@ -729,7 +717,7 @@ func (ex *Exec) explicitPanic(msg string) {
 
 // ---- globals ----
 
-var lazyInitPkgs = map[string]bool{"io": true, "unicode/utf8": true, "encoding/binary": true,
+var lazyInitPkgs = map[string]bool{"io": true, "unicode/utf8": true,
 	"sort": true, "math/bits": true, "io/fs": false}
 
 func isOurs(p *ssa.Package) bool {
@@ -782,6 +770,9 @@ func (ex *Exec) depGlobal(g *ssa.Global, loc *Value) bool {
 	elemT := g.Type().(*types.Pointer).Elem()
 	if types.Identical(elemT, types.Universe.Lookup("error").Type()) {
 		*loc = ex.opaqueError(g.String())
+		return true
+	}
+	if st, ok := elemT.Underlying().(*types.Struct); ok && st.NumFields() == 0 {
 		return true
 	}
 	switch g.String() {
